@@ -42,7 +42,9 @@ Fixpoint unstarved (fuel : nat) (w : waker) (a : acq) (s : sh) : lres :=
         let '(s, id) := listen me s in
         let a := set_lis (Some id) a in
         let '(s, prev) := cas mw 0 1 s in
-        if prev =? 0 then let '(a, s) := take_mutex a s in LReady a s
+        if prev =? 0 then
+          let s := drop_listener me id s in               (* *this.listener = None (fix a3c1bed) *)
+          let '(a, s) := take_mutex (set_lis None a) s in LReady a s
         else if prev =? 1 then unstarved fuel w a s
         else LBreak a s
     | Some id =>
@@ -69,7 +71,9 @@ Fixpoint starved_loop (fuel : nat) (w : waker) (a : acq) (s : sh) : lres :=
         let '(s, id) := listen me s in
         let a := set_lis (Some id) a in
         let '(s, prev) := cas mw 2 3 s in
-        if prev =? 2 then let '(a, s) := take_mutex a s in LReady a s
+        if prev =? 2 then
+          let s := drop_listener me id s in               (* *this.listener = None (fix a3c1bed) *)
+          let '(a, s) := take_mutex (set_lis None a) s in LReady a s
         else if prev mod 2 =? 1 then starved_loop fuel w a s
         else starved_loop fuel w a (notify me 1 false s)
     | Some id =>
